@@ -586,7 +586,7 @@ def historical_supplement(df, date, rng=None):
     downstream of them (contributions, taxable income, transfers) are computable."""
     d = df.copy()
     n = len(d)
-    r = rng.random(n) if rng is not None else np.full(n, 0.5)
+    r = rng.random(n) if rng is not None else (np.arange(n) * 0.6180339887498949) % 1.0
     d["ges_rente_m"] = np.where(d["rentner"].to_numpy(), np.round(400.0 + 1400.0 * r, 2), 0.0)
     if date.year < 2011:
         d["elterngeld_m"] = np.where((d["alter"].to_numpy() >= 20) & (d["alter"].to_numpy() < 45) & (r < 0.15), 300.0, 0.0)
